@@ -64,6 +64,10 @@ def run(tier, seed):
             pv["zeta"] = g.rng.choice(["3/4", "1/4", "5/2"])
         if kappa_val is not None:
             pv["kappa"] = kappa_val
+        adj_params = sorted({a_[k_]["p"] for o in p["ops"] if o["op"] == "strat" for e_ in o.get("fadj", []) for a_ in e_[1].values()
+                             if a_ is not None for k_ in a_ if isinstance(a_[k_], dict) and "p" in a_[k_]} - ({"kappa"} if kappa_val else set()))
+        if adj_params and g.rng.random() < 0.5:
+            pv[g.rng.choice(adj_params)] = "0"       # an adjustment that switches its stratum off, given through a parameter
         base = dict(p)
         obs = [{"obs": "onestep", "params": pv}]
         if (not p["nonlinear"]) or nsteps(p) <= 2:
